@@ -351,6 +351,10 @@ func (g *Generator) writeUnwrapImports(gf *protogen.GeneratedFile) {
 	gf.P(`"google.golang.org/protobuf/encoding/protojson"`)
 	gf.P(")")
 	gf.P()
+	gf.P("// Reference imports to suppress errors if they are not otherwise used")
+	gf.P("// (scalar unwrap fields need no protojson).")
+	gf.P("var _ = protojson.Marshal")
+	gf.P()
 }
 
 func (g *Generator) generateUnwrapMarshalJSON(gf *protogen.GeneratedFile, containing *UnwrapContainingMessage) {
